@@ -13,7 +13,8 @@ CLAIMS = {
     'C01': ('proof',
             'Every conversion, element-wise and loop kernel of dimensions 2..6 is abstractly interpreted from the current sources into a '
             'coefficient table / footprint and compared entry by entry with the definition (Gell-Mann normalisation, layout, inverse pair, '
-            'per-slot operation). The tables are finite, so the comparison covers all inputs up to rounding.',
+            'per-slot operation). The tables are finite, so the comparison covers all inputs up to rounding; scalar division must divide each component by the scalar itself (no reciprocal formed first); '
+            'operator== must compare numerically, not bytewise.',
             'static analysis: abstract interpretation of the type-resolved AST into coefficient tables (polynomial value domain); table-vs-definition comparison'),
     'C02': ('proof',
             'The bilinear form of each of the 180 output slots of the commutator / anticommutator kernels and the 10 SUTrace forms are '
@@ -53,19 +54,19 @@ CLAIMS = {
             'static analysis: storage-class and effect audit over the type-resolved AST (who-may-write / who-may-call rules)'),
     'C19': ('other',
             'Structural necessary conditions; linearizability under all interleavings is declined. On both compilations of Cache.h (the atomic one via a driver TU): record typestate (no access after publish), conservation of records after every operation, '
-            'exhaustive single-threaded sequences up to length 7 (N=4) / from fills 0,1,31,32 (N=32) against a bounded-LIFO model, CAS-loop shape (syntactic) and a forced failed exchange with one interposed concurrent operation at either CAS.',
+            'exhaustive single-threaded sequences up to length 7 (N=4) / from fills 0,1,31,32 (N=32) against a bounded-LIFO model, CAS-loop shape (syntactic) and one complete concurrent operation interposed before the first or second exchange at every fill level 0..N, judged against what a sequential pool allows.',
             'static analysis: local typestate and conservation by abstract interpretation with summarised atomics; syntactic CAS-loop rule'),
     'C06': ('proof',
             'All 35 plane-rotation kernels (917 slot tables) are compared with R^dagger A R as trigonometric polynomials modulo sin^2+cos^2=1; '
             'the rotation sequences of RotateToB0/B1 are compared with the factor order of GetTransformationMatrix, each factor with the plane rotation '
             'of the property (and its unitarity); Rotate(U)/UTransform(U)/UDaggerTransform(U) are interpreted end to end for symbolic U; the two '
-            'WeightedRotation bodies are compared as normal forms; the Const accessors are enumerated over an index window. Proof level applies to the '
+            'WeightedRotation bodies are compared as normal forms; the Const accessors are enumerated over an index window; two-request histories [set; get U; set; get U] on one Const object are compared with a fresh object holding the same stored values (no stale remembered matrix). Proof level applies to the '
             'kernel tables and factor rules; the WeightedRotation and accessor rules are structural necessary conditions.',
             'static analysis: abstract interpretation into trigonometric-polynomial tables; product-word matrix domain with BLAS callee summaries; AST normal-form comparison'),
     'C07': ('other',
             'Structural necessary conditions only (the accuracy bound is numerical and declined): Pade tables vs the closed formula; U/V assembly on a matrix-polynomial domain for every order and several scaling exponents '
-            '(all comparison outcomes on the opaque norm estimates explored as path choices); solve_P_Q solves (V-U)X=(V+U) column-wise; thresholds not above the published theta_m; squaring loop parity s=0..6; '
-            'every thread-local scratch matrix defined before read after reset; helper kernels; diagonal shortcut; estimator guards for n=2..6 at all call sites; UTransform(v,scale) sandwich.',
+            '(all comparison outcomes on the opaque norm estimates explored as path choices); solve_P_Q solves (V-U)X=(V+U) column-wise; on every explored path the order-m branch is taken only under a bound not above the published theta_m, lower orders first, and the scaling exponent is ceil(log2(eta/theta)) with theta<=4.25; squaring loop parity s=0..6; '
+            'every thread-local scratch matrix defined before read after reset; helper kernels; diagonal shortcut taken for diagonal input only (one non-zero real or imaginary entry at any off-diagonal position reaches the LU solve); estimator guards for n=2..6 at all call sites; UTransform(v,scale) sandwich.',
             'static analysis: abstract interpretation on a matrix-polynomial domain with callee summaries for BLAS/LU; must-define-before-use; constant-table and threshold-inequality rules'),
     'C08': ('proof',
             'Every lifecycle function (constructors, destructor, copy/move assignment, assignProxy<W,P> for 3 wrappers x 9 proxies, proxy constructors, '
@@ -84,14 +85,14 @@ CLAIMS = {
             'static analysis: path enumeration by abstract interpretation with callee summaries; syntactic rule for writes/divisions outside the trusted solver'),
     'C15': ('other',
             'Token accounting on every exit (incl. library exceptions) of every explored lifecycle path; GSL allocate/free pairing on every path to every exit of every function that allocates, with a may-throw call graph; '
-            'RAII holder rule; every kernel family interpreted on exact-size abstract blocks (extent check); alignment hints only under the asserted flag. UB inside GSL and arithmetic overflow are declined, hence level other.',
+            'RAII holder rule; every kernel family and the abstract solver runs of C04/C05/C10/C17 interpreted on exact-size abstract blocks (extent check); alignment hints only under the asserted flag. UB inside GSL and arithmetic overflow are declined, hence level other.',
             'static analysis: ownership typestate with token accounting; intraprocedural resource-pairing over the AST with a may-throw call graph; extent-checked abstract interpretation of kernels'),
     'C16': ('proof',
             'For every explored (operation, entry state, choice) path with N allocations the path is re-interpreted with std::bad_alloc raised at the k-th allocation point, k=1..N (exhaustive over allocation sites x paths); '
             'on the exceptional edge the invariant, the token accounting and the values of bystander vectors are checked.',
             'static analysis: fault-edge enumeration over allocation sites in the ownership typestate engine'),
     'C11': ('proof',
-            'The four filter families are abstractly interpreted for d=2..6 with data-dependent branches kept as guards; the guarded table of every level pair is compared with the documented piecewise definition (threshold, strictness, ramp, cutoff), the phase/frequency of pair k with that of the consumer kernel, the interval form with the exact average; every division by an input-dependent quantity must be dominated by guards excluding zero (35 listed known findings).',
+            'The four filter families are abstractly interpreted for d=2..6 with data-dependent branches kept as guards; the guarded table of every level pair is compared with the documented piecewise definition (threshold, strictness, ramp, cutoff), the phase/frequency of pair k with that of the consumer kernel, the interval form with the exact average; every division by an input-dependent quantity must be dominated by guards excluding zero (35 listed known findings). A guard structure that is not recognised is reported only with a concrete counterexample point of the abstract result; otherwise the check ends undecided (exit 2).',
             'static analysis: abstract interpretation with guarded (ITE) values; guarded-table comparison; guard-dominance rule for divisions'),
     'C13': ('proof',
             'Each factory body is abstractly interpreted for every d in 2..6 and every admissible index (finite domain, exhaustive) and '
